@@ -15,6 +15,8 @@ import Proofs.Lexer
 import Proofs.Regex
 import Proofs.LexerRegex
 import Proofs.LexerRegexString
+import Martian.Tokenizer
+import Proofs.Tokenizer
 import Gen.Facts
 
 namespace Props.C08
@@ -243,5 +245,57 @@ example : (parse Gen.tokStringRegex).map (fun r => pmatch r [0x22, 0x61, 0x5C, 0
     = some (some [0x22, 0x61, 0x5C, 0x6E, 0xC3, 0xA9, 0x22]) := by decide
 
 end regex
+
+/-! ## The whole tokenizer: `nextToken` for all token kinds (interpreted from the
+regenerated first-byte switch of `keywordToken` and the regenerated token
+constants) and the `Lex` scanner loop -/
+
+section tokenizer
+open Martian.Tokenizer
+
+/-- Progress, full rule set, for ANY switch table / token-id table (so also for
+the ones found in the source now): the text `nextToken` returns is a prefix of
+the head, and it is non-empty unless the token is INVALID — every iteration
+of `Lex` consumes at least one byte or hands INVALID to the parser. -/
+theorem lexer_progress_full (T : Tables) (head : Martian.Lexer.Bytes) :
+    (nextTokenT T head).2 <+: head ∧
+    ((nextTokenT T head).1 = invalidId T ∨ 0 < (nextTokenT T head).2.length) :=
+  ⟨nextTokenT_prefix T head, nextTokenT_progress T head⟩
+
+/-- Termination of the scanner loop for the regenerated tables: it stops on its
+own (end of input or INVALID) within `length + 1` iterations — more fuel
+changes nothing. -/
+theorem lex_terminates (src : Martian.Lexer.Bytes) (f : Nat) (h : src.length + 1 ≤ f) :
+    lexRawFuel genTables f src startLoc = lexAllRaw src :=
+  lexAllRaw_fuel src f h
+
+/-- The texts of all tokens (skipped white space and comments included), in
+order, followed by the unconsumed rest, are the input; a rest remains only
+after an INVALID token. -/
+theorem lex_reconstructs (src : Martian.Lexer.Bytes) :
+    ((lexAllRaw src).1.map Tok.text).flatten ++ (lexAllRaw src).2 = src ∧
+    ((lexAllRaw src).2 ≠ [] → ∃ pre t, (lexAllRaw src).1 = pre ++ [t] ∧ t.id = invalidId genTables) :=
+  lexAllRaw_reconstructs src
+
+/-- What the reported line of a token is: 1 + the newlines in the white-space
+tokens before it + the number of comment tokens before it. -/
+theorem lex_line (src : Martian.Lexer.Bytes) (pre : List Tok) (t : Tok) (post : List Tok)
+    (h : (lexAllRaw src).1 = pre ++ t :: post) : t.line = 1 + (pre.map (lineAdvance genTables)).sum :=
+  lexAllRaw_line src pre t post h
+
+-- non-vacuity: `in x\n#\n$` is IN, ID, then INVALID on line 3
+example : (lexAll [0x69, 0x6E, 0x20, 0x78, 0x0A, 0x23, 0x0A, 0x24]).map (fun t => (t.id, t.line)) =
+    [(57354, 1), (57378, 1), (57348, 3)] := by decide
+
+/-- Negative witness (recorded, not a totality defect): newlines inside a
+string literal are not counted, so `"a⏎b" x` reports `x` on line 1 although it
+is on line 2 of the file; and a comment cut short by an invalid byte still
+advances the line, so in `#\xff` the INVALID token is reported on line 2 of a
+one-line file. -/
+theorem line_count_quirks :
+    (lexAll [0x22, 0x61, 0x0A, 0x62, 0x22, 0x20, 0x78]).map (fun t => t.line) = [1, 1] ∧
+    (lexAll [0x23, 0xFF]).map (fun t => (t.id, t.line)) = [(57348, 2)] := by decide
+
+end tokenizer
 
 end Props.C08
